@@ -963,3 +963,386 @@ Proof.
       split; [|split; assumption]. rewrite E. apply (adjacent_In _ _ _ Hadj).
 Qed.
 End Merge.
+
+(* ------------------------------------------------------------------------------------------ *)
+(* the two masks on a well-formed anchor list: start = first anchor, end = last anchor *)
+
+Section Masks.
+Variable anc : list (nat * Z).
+Variable n : nat.
+Hypothesis Hs : sorted_anc anc.
+Hypothesis Hwf : wf_anc anc.
+Hypothesis Hn : forall a v, In (a, v) anc -> a < n.
+Hypothesis Hlen : 2 <= length anc.
+Hypothesis Hgap : first_gap anc.
+
+Lemma first_lt_last F vF rest pre L vL :
+  anc = (F, vF) :: rest -> anc = pre ++ [(L, vL)] -> F < L.
+Proof.
+  intros HdF HdL. destruct pre as [|p pre'].
+  - exfalso. pose proof Hlen as Hl. rewrite HdL in Hl. cbn in Hl. lia.
+  - pose proof Hs as Hs'. rewrite HdL in Hs'. rewrite HdL in HdF. cbn [app] in HdF, Hs'.
+    injection HdF as Hp Hrest. subst p.
+    apply (sorted_head_lt _ _ (L, vL)) in Hs'; [exact Hs'|]. apply in_or_app. right. now left.
+Qed.
+
+Lemma last_lt_n pre L vL : anc = pre ++ [(L, vL)] -> L < n.
+Proof.
+  intro HdL. apply (Hn L vL). rewrite HdL. apply in_or_app. right. now left.
+Qed.
+
+Lemma first_step_pos F vF rest : anc = (F, vF) :: rest -> (mg anc n F < mg anc n (S F))%Q.
+Proof.
+  intro HdF. destruct rest as [|[a1 v1] rest'].
+  { exfalso. pose proof Hlen as Hl. rewrite HdF in Hl. cbn in Hl. lia. }
+  assert (Hadj : adjacent (F, vF) (a1, v1) anc) by (exists [], rest'; exact HdF).
+  destruct (wf_anc_adj _ _ _ _ _ Hwf Hadj) as [H01 [R0 [R1 Hcase]]].
+  destruct (lt_dec (S F) a1) as [Hin|Hend].
+  - apply (mg_step_inner anc n Hs Hwf Hn F vF a1 v1); [assumption|lia|assumption].
+  - apply (mg_step_adv anc n Hs Hwf Hn F vF a1 v1); [assumption|lia|lia|].
+    destruct Hcase as [Hadv|[Hv1 Hv0]]; [assumption|].
+    exfalso. pose proof Hgap as Hg. rewrite HdF in Hg. cbn [first_gap] in Hg. specialize (Hg Hv1). lia.
+Qed.
+
+Lemma last_step_nonzero pre L vL : anc = pre ++ [(L, vL)] -> 1 <= L ->
+  ~ (mg anc n L - mg anc n (L - 1) == 0)%Q.
+Proof.
+  intros HdL HL.
+  destruct (exists_last (l := pre)) as [pre' [[a0 v0] Hpre]].
+  { intro E. subst pre. pose proof Hlen as Hl. rewrite HdL in Hl. cbn in Hl. lia. }
+  assert (Hadj : adjacent (a0, v0) (L, vL) anc).
+  { exists pre', []. rewrite HdL, Hpre, <- app_assoc. reflexivity. }
+  destruct (wf_anc_adj _ _ _ _ _ Hwf Hadj) as [H01 [R0 [R1 Hcase]]].
+  assert (E : S (L - 1) = L) by lia.
+  destruct Hcase as [Hadv|[Hv1 Hv0]].
+  - pose proof (mg_step_adv anc n Hs Hwf Hn a0 v0 L vL (L - 1) Hadj ltac:(lia) E Hadv) as Hlt.
+    rewrite E in Hlt. lra.
+  - subst vL. destruct (mg_step_wrap anc n Hs Hwf Hn a0 v0 L (L - 1) Hadj ltac:(lia) E) as [W1 [W2 W3]].
+    rewrite E in W3. lra.
+Qed.
+
+Lemma find_first F vF rest pre L vL : anc = (F, vF) :: rest -> anc = pre ++ [(L, vL)] ->
+  find_idx (fun i => is_pos (step (map Some (map (mg anc n) (seq 0 n))) i)) (seq 0 (n - 1)) = Some F.
+Proof.
+  intros HdF HdL. pose proof (first_lt_last _ _ _ _ _ _ HdF HdL) as HFL.
+  pose proof (last_lt_n _ _ _ HdL) as HLn.
+  apply find_idx_seq0; [lia| |].
+  - intros j Hj. rewrite step_pha.
+    assert (E : S j <? n = true) by (apply Nat.ltb_lt; lia). rewrite E. cbn [is_pos].
+    apply Qltb_false. rewrite (mg_before anc n F vF rest j HdF Hj).
+    destruct (Nat.eq_dec (S j) F) as [EF|NF].
+    + rewrite EF. rewrite (mg_anchor anc n Hs Hwf Hn F vF) by (rewrite HdF; now left). lra.
+    + rewrite (mg_before anc n F vF rest (S j) HdF) by lia. lra.
+  - rewrite step_pha.
+    assert (E : S F <? n = true) by (apply Nat.ltb_lt; lia). rewrite E. cbn [is_pos].
+    apply Qltb_true. pose proof (first_step_pos F vF rest HdF). lra.
+Qed.
+
+Lemma find_last F vF rest pre L vL : anc = (F, vF) :: rest -> anc = pre ++ [(L, vL)] ->
+  find_idx (fun k => is_nonzero (step (mask_before F (map Some (map (mg anc n) (seq 0 n)))) (n - 2 - k)))
+           (seq 0 (n - 1)) = Some (n - 1 - L).
+Proof.
+  intros HdF HdL. pose proof (first_lt_last _ _ _ _ _ _ HdF HdL) as HFL.
+  pose proof (last_lt_n _ _ _ HdL) as HLn.
+  apply find_idx_seq0; [lia| |].
+  - intros j Hj. rewrite step_mask_before. destruct (n - 2 - j <? F); [reflexivity|].
+    rewrite step_pha.
+    assert (E : S (n - 2 - j) <? n = true) by (apply Nat.ltb_lt; lia). rewrite E. cbn [is_nonzero].
+    rewrite (mg_after anc n Hs pre L vL (S (n - 2 - j)) HdL) by lia.
+    rewrite (mg_after anc n Hs pre L vL (n - 2 - j) HdL) by lia.
+    assert (Q0 : (inject_Z vL - inject_Z vL == 0)%Q) by ring.
+    apply Qeq_bool_iff in Q0. now rewrite Q0.
+  - replace (n - 2 - (n - 1 - L)) with (L - 1) by lia.
+    rewrite step_mask_before.
+    assert (E0 : L - 1 <? F = false) by (apply Nat.ltb_ge; lia). rewrite E0.
+    rewrite step_pha. replace (S (L - 1)) with L by lia.
+    assert (E : L <? n = true) by (apply Nat.ltb_lt; lia). rewrite E. cbn [is_nonzero].
+    destruct (Qeq_bool (mg anc n L - mg anc n (L - 1)) 0) eqn:Eq; [|reflexivity].
+    apply Qeq_bool_iff in Eq. exfalso. now apply (last_step_nonzero pre L vL HdL ltac:(lia)).
+Qed.
+
+Theorem merge_phases_wf F vF rest pre L vL : anc = (F, vF) :: rest -> anc = pre ++ [(L, vL)] ->
+  merge_phases (map (samp (map flipa anc)) (seq 0 n)) (map (samp anc) (seq 0 n))
+  = Ok (mask_from (S L) (mask_before F (map Some (map (mg anc n) (seq 0 n))))).
+Proof.
+  intros HdF HdL. pose proof (first_lt_last _ _ _ _ _ _ HdF HdL) as HFL.
+  pose proof (last_lt_n _ _ _ HdL) as HLn.
+  unfold merge_phases. cbv zeta. rewrite merge_eq.
+  assert (Hl : length (map (samp anc) (seq 0 n)) = n) by now rewrite map_length, seq_length.
+  rewrite !Hl. rewrite (find_first F vF rest pre L vL HdF HdL).
+  rewrite (find_last F vF rest pre L vL HdF HdL).
+  replace (n - (n - 1 - L)) with (S L) by lia. reflexivity.
+Qed.
+
+End Masks.
+
+(* value of the result at every sample *)
+Lemma onth_result anc n F L i : i < n ->
+  onth (mask_from (S L) (mask_before F (map Some (map (mg anc n) (seq 0 n))))) i
+  = if (F <=? i) && (i <=? L) then Some (mg anc n i) else None.
+Proof.
+  intro Hi. rewrite onth_mask_from, onth_mask_before, onth_some_map_seq.
+  assert (E : i <? n = true) by (apply Nat.ltb_lt; lia). rewrite E.
+  destruct (Nat.leb_spec (S L) i); destruct (Nat.ltb_spec i F); destruct (Nat.leb_spec F i);
+    destruct (Nat.leb_spec i L); try reflexivity; lia.
+Qed.
+
+
+(* ------------------------------------------------------------------------------------------ *)
+(* P5, P6, P7 on cyclepoints *)
+
+Definition first_idx (c : cps) : nat := hd 0 (map fst (anchors (-2) c)).
+Definition last_idx (c : cps) : nat := last (map fst (anchors (-2) c)) 0.
+
+Lemma wf_decomp c : wf_cps c -> exists F vF rest pre L vL,
+  anchors (-2) c = (F, vF) :: rest /\ anchors (-2) c = pre ++ [(L, vL)] /\
+  first_idx c = F /\ last_idx c = L.
+Proof.
+  intros [_ [Hlen _]]. unfold first_idx, last_idx.
+  destruct (anchors (-2) c) as [|[F vF] rest] eqn:E; [cbn in Hlen; lia|].
+  destruct (exists_last (l := (F, vF) :: rest)) as [pre [[L vL] Hd]]; [discriminate|].
+  exists F, vF, rest, pre, L, vL. split; [reflexivity|]. split; [assumption|]. split; [reflexivity|].
+  rewrite Hd, map_app. cbn [map fst]. apply last_last.
+Qed.
+
+Lemma sorted_first_le F vF rest a v : sorted_anc ((F, vF) :: rest) -> In (a, v) ((F, vF) :: rest) -> F <= a.
+Proof.
+  intros Hs [Heq|Hin].
+  - inversion Heq. lia.
+  - pose proof (sorted_head_lt _ _ _ Hs Hin) as H. cbn in H. lia.
+Qed.
+
+Lemma sorted_last_ge pre L vL a v : sorted_anc (pre ++ [(L, vL)]) -> In (a, v) (pre ++ [(L, vL)]) -> a <= L.
+Proof.
+  induction pre as [|p pre IH]; intros Hs Hin.
+  - destruct Hin as [Heq|[]]. inversion Heq. lia.
+  - cbn [app] in Hs, Hin. destruct Hin as [Heq|Hin].
+    + subst p. assert (Hl : In (L, vL) (pre ++ [(L, vL)])) by (apply in_or_app; right; now left).
+      pose proof (sorted_head_lt _ _ _ Hs Hl) as H. cbn in H. lia.
+    + apply IH; [now apply sorted_tail in Hs|assumption].
+Qed.
+
+Lemma phase_wf c F vF rest pre L vL : wf_cps c ->
+  anchors (-2) c = (F, vF) :: rest -> anchors (-2) c = pre ++ [(L, vL)] ->
+  phase c = Ok (mask_from (S L) (mask_before F
+                 (map Some (map (mg (anchors (-2) c) (c_n c)) (seq 0 (c_n c)))))).
+Proof.
+  intros [Hwf [Hlen Hgap]] HdF HdL. unfold phase, phase_gen. rewrite anchors_pi_npi.
+  rewrite (interp_ok (map flipa (anchors (-2) c))) by (rewrite HdF; discriminate). cbn [bind].
+  rewrite (interp_ok (anchors (-2) c)) by (rewrite HdF; discriminate). cbn [bind].
+  fold (samp (map flipa (anchors (-2) c))). fold (samp (anchors (-2) c)).
+  apply (merge_phases_wf (anchors (-2) c) (c_n c) (anchors_sorted (-2) c) Hwf) with (vF := vF) (rest := rest) (pre := pre) (vL := vL);
+    try assumption.
+  intros a v Hin. now apply anchors_In in Hin.
+Qed.
+
+(* no StopIteration on well-formed cyclepoints *)
+Theorem phase_ok c : wf_cps c -> exists ph, phase c = Ok ph.
+Proof.
+  intro Hwf. destruct (wf_decomp c Hwf) as [F [vF [rest [pre [L [vL [HdF [HdL _]]]]]]]].
+  eexists. apply (phase_wf c F vF rest pre L vL Hwf HdF HdL).
+Qed.
+
+(* every sample of the result, in closed form *)
+Lemma phase_onth c ph i : wf_cps c -> phase c = Ok ph -> i < c_n c ->
+  onth ph i = if (first_idx c <=? i) && (i <=? last_idx c)
+              then Some (mg (anchors (-2) c) (c_n c) i) else None.
+Proof.
+  intros Hwf Hph Hi. destruct (wf_decomp c Hwf) as [F [vF [rest [pre [L [vL [HdF [HdL [EF EL]]]]]]]]].
+  rewrite (phase_wf c F vF rest pre L vL Hwf HdF HdL) in Hph. inversion Hph; subst ph.
+  rewrite EF, EL. now apply onth_result.
+Qed.
+
+(* P6: finite exactly from the first to the last cyclepoint *)
+Theorem phase_span c ph i : wf_cps c -> phase c = Ok ph -> i < c_n c ->
+  (onth ph i <> None <-> first_idx c <= i <= last_idx c).
+Proof.
+  intros Hwf Hph Hi. rewrite (phase_onth c ph i Hwf Hph Hi).
+  destruct (Nat.leb_spec (first_idx c) i); destruct (Nat.leb_spec i (last_idx c)); cbn [andb];
+    split; intro HH; try lia; try discriminate; congruence.
+Qed.
+
+Lemma anchor_in_span c i v : wf_cps c -> i < c_n c -> anchor (-2) c i = Some v ->
+  first_idx c <= i <= last_idx c.
+Proof.
+  intros Hwf Hi Ha. destruct (wf_decomp c Hwf) as [F [vF [rest [pre [L [vL [HdF [HdL [EF EL]]]]]]]]].
+  assert (Hin : In (i, v) (anchors (-2) c)) by (apply anchors_In; auto).
+  pose proof (anchors_sorted (-2) c) as Hs. rewrite EF, EL. split.
+  - rewrite HdF in Hs, Hin. now apply (sorted_first_le F vF rest i v).
+  - rewrite HdL in Hs, Hin. now apply (sorted_last_ge pre L vL i v).
+Qed.
+
+(* P5: the prescribed value at every cyclepoint: 0 at peaks, -2 (-pi) at troughs, -1 / +1 at rise /
+   decay midpoints that are not also extrema *)
+Theorem phase_at_anchor c ph i v : wf_cps c -> phase c = Ok ph ->
+  anchor (-2) c i = Some v -> i < c_n c ->
+  exists q, onth ph i = Some q /\ (q == inject_Z v)%Q.
+Proof.
+  intros Hwf Hph Ha Hi. pose proof (anchor_in_span c i v Hwf Hi Ha) as [H1 H2].
+  rewrite (phase_onth c ph i Hwf Hph Hi).
+  apply Nat.leb_le in H1. apply Nat.leb_le in H2. rewrite H1, H2. cbn [andb].
+  eexists. split; [reflexivity|].
+  destruct Hwf as [Hwf [Hlen Hgap]].
+  apply (mg_anchor (anchors (-2) c) (c_n c) (anchors_sorted (-2) c) Hwf).
+  - intros a w Hin. now apply anchors_In in Hin.
+  - apply anchors_In. auto.
+Qed.
+
+Corollary phase_at_trough c ph i : wf_cps c -> phase c = Ok ph -> i < c_n c ->
+  mem i (c_troughs c) = true -> exists q, onth ph i = Some q /\ (q == -2)%Q.
+Proof.
+  intros Hwf Hph Hi Hm. apply (phase_at_anchor c ph i (-2) Hwf Hph); [|assumption].
+  now apply anchor_trough.
+Qed.
+
+Corollary phase_at_peak c ph i : wf_cps c -> phase c = Ok ph -> i < c_n c ->
+  mem i (c_troughs c) = false -> mem i (c_peaks c) = true ->
+  exists q, onth ph i = Some q /\ (q == 0)%Q.
+Proof.
+  intros Hwf Hph Hi Hm1 Hm2. apply (phase_at_anchor c ph i 0 Hwf Hph); [|assumption].
+  now apply anchor_peak.
+Qed.
+
+Corollary phase_at_decay c ph i : wf_cps c -> phase c = Ok ph -> i < c_n c ->
+  mem i (c_troughs c) = false -> mem i (c_peaks c) = false -> omem i (c_decays c) = true ->
+  exists q, onth ph i = Some q /\ (q == 1)%Q.
+Proof.
+  intros Hwf Hph Hi Hm1 Hm2 Hm3. apply (phase_at_anchor c ph i 1 Hwf Hph); [|assumption].
+  now apply anchor_decay.
+Qed.
+
+Corollary phase_at_rise c ph i : wf_cps c -> phase c = Ok ph -> i < c_n c ->
+  mem i (c_troughs c) = false -> mem i (c_peaks c) = false -> omem i (c_decays c) = false ->
+  omem i (c_rises c) = true -> exists q, onth ph i = Some q /\ (q == -1)%Q.
+Proof.
+  intros Hwf Hph Hi Hm1 Hm2 Hm3 Hm4. apply (phase_at_anchor c ph i (-1) Hwf Hph); [|assumption].
+  now apply anchor_rise.
+Qed.
+
+(* P7: strictly increasing from sample to sample across the whole span, the only exception being
+   the +2 -> -2 wrap that lands on a trough *)
+Theorem phase_monotone_strict c ph i a b : wf_cps c -> phase c = Ok ph ->
+  first_idx c <= i -> S i <= last_idx c ->
+  onth ph i = Some a -> onth ph (S i) = Some b ->
+  (a < b)%Q \/ (anchor (-2) c (S i) = Some (-2)%Z /\ (0 <= a)%Q /\ (b == -2)%Q).
+Proof.
+  intros Hwf Hph HF HL Ha Hb.
+  destruct (wf_decomp c Hwf) as [F [vF [rest [pre [L [vL [HdF [HdL [EF EL]]]]]]]]].
+  assert (HLn : L < c_n c).
+  { assert (Hin : In (L, vL) (anchors (-2) c)) by (rewrite HdL; apply in_or_app; right; now left).
+    now apply anchors_In in Hin. }
+  rewrite (phase_onth c ph i Hwf Hph) in Ha by lia.
+  rewrite (phase_onth c ph (S i) Hwf Hph) in Hb by lia.
+  assert (E1 : first_idx c <=? i = true) by (apply Nat.leb_le; lia).
+  assert (E2 : i <=? last_idx c = true) by (apply Nat.leb_le; lia).
+  assert (E3 : first_idx c <=? S i = true) by (apply Nat.leb_le; lia).
+  assert (E4 : S i <=? last_idx c = true) by (apply Nat.leb_le; lia).
+  rewrite E1, E2 in Ha. rewrite E3, E4 in Hb. cbn [andb] in Ha, Hb.
+  inversion Ha; inversion Hb; subst a b. clear Ha Hb.
+  destruct Hwf as [Hwf [Hlen Hgap]].
+  assert (Hn : forall a v, In (a, v) (anchors (-2) c) -> a < c_n c).
+  { intros a w Hin. now apply anchors_In in Hin. }
+  destruct (mg_step (anchors (-2) c) (c_n c) (anchors_sorted (-2) c) Hwf Hn F vF rest pre L vL i HdF HdL
+              ltac:(lia) ltac:(lia)) as [Hlt|[Hin [H0 Hm2]]].
+  - left. assumption.
+  - right. split; [|split; assumption]. apply anchors_In in Hin. tauto.
+Qed.
+
+Theorem phase_monotone c ph i a b : wf_cps c -> phase c = Ok ph ->
+  first_idx c <= i -> S i <= last_idx c ->
+  onth ph i = Some a -> onth ph (S i) = Some b ->
+  (a <= b)%Q \/ anchor (-2) c (S i) = Some (-2)%Z.
+Proof.
+  intros Hwf Hph HF HL Ha Hb.
+  destruct (phase_monotone_strict c ph i a b Hwf Hph HF HL Ha Hb) as [Hlt|[Hanc _]].
+  - left. lra.
+  - right. assumption.
+Qed.
+
+(* between two consecutive cyclepoints the result is the straight line (towards +2 when the next
+   cyclepoint is a trough) *)
+Theorem phase_between c ph a0 v0 a1 v1 x : wf_cps c -> phase c = Ok ph ->
+  adjacent (a0, v0) (a1, v1) (anchors (-2) c) -> a0 <= x < a1 ->
+  exists q, onth ph x = Some q /\ (q == lin a0 v0 a1 (flipv v1) x)%Q.
+Proof.
+  intros Hwf Hph Hadj Hx. pose proof (adjacent_In _ _ _ Hadj) as [Hin0 Hin1].
+  apply anchors_In in Hin0. apply anchors_In in Hin1. destruct Hin0 as [Hn0 Ha0]. destruct Hin1 as [Hn1 Ha1].
+  pose proof (anchor_in_span c a0 v0 Hwf Hn0 Ha0) as [S0 _].
+  pose proof (anchor_in_span c a1 v1 Hwf Hn1 Ha1) as [_ S1].
+  rewrite (phase_onth c ph x Hwf Hph) by lia.
+  assert (E1 : first_idx c <=? x = true) by (apply Nat.leb_le; lia).
+  assert (E2 : x <=? last_idx c = true) by (apply Nat.leb_le; lia).
+  rewrite E1, E2. cbn [andb]. eexists. split; [reflexivity|].
+  destruct Hwf as [Hwf [Hlen Hgap]].
+  apply (mg_interval (anchors (-2) c) (c_n c) (anchors_sorted (-2) c) Hwf); [|assumption|assumption].
+  intros a w Hin. now apply anchors_In in Hin.
+Qed.
+
+(* ------------------------------------------------------------------------------------------ *)
+(* extras: same sample indices in both series; a boolean checker for the precondition; the
+   first-gap clause cannot be dropped *)
+
+Lemma anchors_pi_npi_fst c : map fst (anchors 2 c) = map fst (anchors (-2) c).
+Proof. rewrite anchors_pi_npi. apply map_flipa_fst. Qed.
+
+Fixpoint wf_ancb (anc : list (nat * Z)) : bool :=
+  match anc with
+  | (a0, v0) :: (((a1, v1) :: _) as t) =>
+      (a0 <? a1) && ((-2 <=? v0)%Z && (v0 <=? 1)%Z) &&
+      ((v0 <? v1)%Z || ((v1 =? -2)%Z && (0 <=? v0)%Z)) && wf_ancb t
+  | [(a0, v0)] => (-2 <=? v0)%Z && (v0 <=? 1)%Z
+  | [] => true
+  end.
+Definition first_gapb (anc : list (nat * Z)) : bool :=
+  match anc with
+  | (a0, _) :: (a1, v1) :: _ => negb (v1 =? -2)%Z || (a0 + 2 <=? a1)
+  | _ => true
+  end.
+Definition wf_cpsb (c : cps) : bool :=
+  wf_ancb (anchors (-2) c) && (2 <=? length (anchors (-2) c)) && first_gapb (anchors (-2) c).
+
+Lemma wf_ancb_sound anc : wf_ancb anc = true -> wf_anc anc.
+Proof.
+  induction anc as [|[a0 v0] t IH]; [intros _; exact I|].
+  destruct t as [|[a1 v1] t'].
+  - cbn [wf_ancb wf_anc]. rewrite andb_true_iff, !Z.leb_le. lia.
+  - intro H. cbn [wf_ancb] in H. rewrite !andb_true_iff in H.
+    destruct H as [[[H1 [H2 H3]] H4] H5].
+    apply Nat.ltb_lt in H1. apply Z.leb_le in H2. apply Z.leb_le in H3.
+    cbn [wf_anc]. split; [assumption|]. split; [lia|]. split; [|now apply IH].
+    apply orb_true_iff in H4. destruct H4 as [H4|H4].
+    + left. now apply Z.ltb_lt in H4.
+    + right. apply andb_true_iff in H4. destruct H4 as [H4 H6].
+      apply Z.eqb_eq in H4. apply Z.leb_le in H6. auto.
+Qed.
+
+Lemma first_gapb_sound anc : first_gapb anc = true -> first_gap anc.
+Proof.
+  destruct anc as [|[a0 v0] [|[a1 v1] t]]; cbn [first_gapb first_gap]; auto.
+  intros H Hv. subst v1. cbn in H. now apply Nat.leb_le in H.
+Qed.
+
+Lemma wf_cpsb_sound c : wf_cpsb c = true -> wf_cps c.
+Proof.
+  unfold wf_cpsb, wf_cps. rewrite !andb_true_iff. intros [[H1 H2] H3].
+  split; [now apply wf_ancb_sound|]. split; [now apply Nat.leb_le in H2|now apply first_gapb_sound].
+Qed.
+
+Example wf_example_by_checker : wf_cps ex_full.
+Proof. apply wf_cpsb_sound. vm_compute. reflexivity. Qed.
+
+(* without the first-gap clause the span statement fails: peak at 0, trough at 1, peak at 2 satisfies
+   wf_anc and has three anchors, but the first step is the one-sample wrap 0 -> -2, so the start
+   mask only ends at sample 1 and the first cyclepoint is NaN *)
+Definition ex_nogap : cps :=
+  {| c_n := 4; c_peaks := [0; 2]; c_troughs := [1]; c_rises := None; c_decays := None |}.
+
+Example first_gap_needed :
+  wf_anc (anchors (-2) ex_nogap) /\ 2 <= length (anchors (-2) ex_nogap) /\
+  ~ first_gap (anchors (-2) ex_nogap) /\ first_idx ex_nogap = 0 /\
+  phase ex_nogap = Ok [None; Some (-2)%Q; Some 0%Q; None].
+Proof.
+  split; [apply wf_ancb_sound; vm_compute; reflexivity|].
+  split; [vm_compute; lia|]. split; [|split; vm_compute; reflexivity].
+  vm_compute. intro H. specialize (H eq_refl). lia.
+Qed.
